@@ -324,6 +324,10 @@ func (m *Message) GetString(ctx context.Context) (string, error) {
 			return "", err
 		}
 
+		if length < 0 {
+			return "", fmt.Errorf("invalid string length %d", length)
+		}
+
 		if err := m.ensureData(ctx, int(length)); err != nil {
 			return "", err
 		}
@@ -396,6 +400,10 @@ func (m *Message) GetStringWithMaxSize(ctx context.Context, maxSize int) (string
 		length, err := m.GetInt32(ctx)
 		if err != nil {
 			return "", err
+		}
+
+		if length < 0 {
+			return "", fmt.Errorf("invalid string length %d", length)
 		}
 
 		// Check if length exceeds maxSize - if so, only read maxSize bytes
